@@ -80,7 +80,8 @@ FULL = {
     ('never',): [],
     ('chain_id',): [bytes(4), b'\xff' * 4, b'\x7a\x06\xa7\x70'],
     ('key_hash',): [(k, dg(f, l)) for k in T.KH_KINDS for f, l in ((0, 5), (3, 5), (4, 5), (9, 0), (0xff, 0xff))],
-    ('address',): ([(k, dg(f, l), '') for k in T.ADDR_KINDS for f, l in ((0, 5), (1, 0), (0xff, 0xff))]
+    ('address',): ([('KT1', dg(9, 9), 'default'), ('tz1', dg(9, 9), 'default')]
+                   + [(k, dg(f, l), '') for k in T.ADDR_KINDS for f, l in ((0, 5), (1, 0), (0xff, 0xff))]
                    + [('tz1', dg(0, 0), 'a'), ('KT1', dg(0, 0), 'a'), ('KT1', dg(1, 0), 'abcdefghijklmnopqrstuvwxyz01234'), ('sr1', dg(2, 0), 'b')]),
     ('key',): [('edpk', bytes(32)), ('edpk', b'\xff' * 32), ('sppk', b'\x02' + bytes(32)), ('p2pk', b'\x03' + b'\x22' * 32),
                ('BLpk', bytes(48)), ('BLpk', b'\xff' * 48)],
@@ -455,12 +456,32 @@ def blame(t, v, lazy, fails):
 
 
 # ------------------------------------------------------------------------------------------------ the check
+def canon_default(t, v):
+    """An address spelled with an explicit %default entrypoint is the same value as the bare address."""
+    p = t[0]
+    if p in ('address', 'contract') and isinstance(v, tuple) and len(v) == 3 and v[2] == 'default':
+        return (v[0], v[1], '')
+    if p == 'pair':
+        return (canon_default(t[1], v[0]), canon_default(t[2], v[1]))
+    if p == 'option':
+        return None if v is None else ('Some', canon_default(t[1], v[1]))
+    if p == 'or':
+        return (v[0], canon_default(t[1] if v[0] == 'L' else t[2], v[1]))
+    if p in ('list', 'set') and isinstance(v, tuple):
+        return tuple(canon_default(t[1], x) for x in v)
+    if p == 'map' and isinstance(v, tuple):
+        return tuple((canon_default(t[1], k), canon_default(t[2], x)) for k, x in v)
+    return v
+
+
 def trip(t, v, lazy):
     """-> {'build': ..., mode: ('ok', rendering) | (problem, detail, rendering?)}"""
     cls = mk_type(t)
     out = {}
+    spelled = v
+    v = canon_default(t, v)
     try:
-        obj = cls.from_micheline_value(lit(t, v))
+        obj = cls.from_micheline_value(lit(t, spelled))
         got = read(obj, t)
     except Exception as e:
         out['build'] = ('literal rejected', f'{type(e).__name__}: {e}'[:200])
@@ -477,12 +498,16 @@ def trip(t, v, lazy):
             out[mode] = ('rendering raises', f'{type(e).__name__}: {e}'[:200], None)
             continue
         try:
-            back = read(cls.from_micheline_value(m), t)
+            back_obj = cls.from_micheline_value(m)
+            back = read(back_obj, t)
         except Exception as e:
             out[mode] = ('own rendering cannot be parsed back', f'{type(e).__name__}: {e}'[:200], m)
             continue
         if back != v:
             out[mode] = ('parses back to a different value', f'{back!r}'[:300], m)
+        elif T.comparable(t) and not (back_obj == obj):
+            # the statement says "an equal value": for comparable types the library's own equality (what COMPARE uses) must agree
+            out[mode] = ('parses back to a value that the library itself does not consider equal (==)', f'{back_obj!r} vs {obj!r}'[:300], m)
         else:
             out[mode] = ('ok', None, m)
     return out
